@@ -18,6 +18,8 @@ The real put_model builds every index table (block layout, qLD_updates, level ta
 io.m_block_layout are lowered inside the check process for the ldl units so that 2..5-dof trees take the sparse path.
 """
 
+from fractions import Fraction
+
 import numpy as np
 import warp as wp
 import z3
@@ -91,28 +93,43 @@ def tree_kinds(mjm, m):
 class Param:
   """SPD parametrisation of the CSR inertia matrix of one world, per kinematic tree:
     Cholesky / compact trees:  M = L L^T,  L lower triangular on the stored pattern, L_ii > 0
-    sparse trees:              M = U^T D U, U unit lower triangular on the stored (dof, ancestor) pattern, D > 0, Rinv D = 1
-  val=None: symbols; otherwise a numpy Generator: well-conditioned random numbers."""
+    sparse trees:              M = U^T D U, U unit lower triangular on the stored (dof, ancestor) pattern, D > 0
+  rng=None: symbols; a numpy Generator: well-conditioned random numbers; a random.Random: small exact rationals."""
 
   def __init__(self, mjm, kinds, w, rng=None):
     st = stored(mjm)
     nv = mjm.nv
     self.st, self.kinds = st, kinds
+    import random
+
     num = rng is not None
-    self.L, self.U, self.D, self.Ri, self.facts = {}, {}, {}, {}, []
+    diag = offd = None
+    if isinstance(rng, random.Random):
+      diag = lambda: Fraction(rng.randint(3, 9), rng.randint(2, 4))
+      offd = lambda: Fraction(rng.choice([-3, -2, -1, 1, 2, 3]), rng.randint(2, 5))
+    elif num:
+      diag = lambda: float(rng.uniform(0.7, 1.5))
+      offd = lambda: float(rng.uniform(-0.5, 0.5))
+    self.L, self.U, self.D, self.facts, self.positive, self.sym = {}, {}, {}, [], [], {}
+
+    def mk(name, gen):
+      if num:
+        return gen()
+      self.sym[name] = R(name)
+      return self.sym[name]
+
     for (i, j) in st:
       if kinds[i] == "ldl":
-        self.U[(i, j)] = 1.0 if i == j else (float(rng.uniform(-0.5, 0.5)) if num else R(f"U{w}_{i}_{j}"))
+        self.U[(i, j)] = 1.0 if i == j else mk(f"U{w}_{i}_{j}", offd)
       else:
-        self.L[(i, j)] = (float(rng.uniform(0.7, 1.5) if i == j else rng.uniform(-0.5, 0.5))) if num else R(f"L{w}_{i}_{j}")
+        self.L[(i, j)] = mk(f"L{w}_{i}_{j}", diag if i == j else offd)
     for k in range(nv):
       if kinds[k] == "ldl":
-        self.D[k] = float(rng.uniform(0.7, 1.5)) if num else R(f"D{w}_{k}")
-        self.Ri[k] = 1.0 / self.D[k] if num else R(f"Rinv{w}_{k}")
-        if not num:
-          self.facts += [self.D[k] > 0, self.Ri[k] * self.D[k] == 1]
-      elif not num:
-        self.facts.append(self.L[(k, k)] > 0)
+        self.D[k] = mk(f"D{w}_{k}", diag)
+      if not num:
+        pv = self.D[k] if kinds[k] == "ldl" else self.L[(k, k)]
+        self.facts.append(pv > 0)
+        self.positive.append(pv.decl().name())
     self.M = [0.0] * mjm.nC
     for (i, j), a in st.items():
       acc = 0.0
@@ -346,63 +363,25 @@ def unit_solve(fam, name, scratch=False):
     sess0 = ctx.session(facts)
     ctx.reach(sess0, "twin:spd-parameters", True)
     rp = lambda what: solve_replay(ctx, fam, name, hows, what)
-    st = stored(mjm)
-    trees = [(int(a), int(n)) for a, n in zip(mjm.tree_dofadr, mjm.tree_dofnum) if n > 0]
+    positive = [n for p in par for n in p.positive]
+    # general proof: close every stored intermediate (solver-checked closed forms), then the rows
     for h, r in runs.items():
-      ch = la.Chain(r["hr"].assumes, r["hr"].defs, facts)
+      ch = la.Closer(r["hr"].assumes, r["hr"].defs, facts, positive)
       r["chain"] = ch
-
-      def lemma(qname, got, want, what, desc):
-        res = ch.prove(ctx, qname, cmp("==", got, want), replay=rp(what), desc=desc)
-        if res.status == "unsat":
-          ch.add(got, want)
-
+      ch.close_all(ctx, f"{h}", rp, lambda n: f"{name} ({h}): intermediate {n} does not have the closed form implied by M = L L^T / U^T D U (replay tests M x = b)")
+      if ch.failed:
+        ctx.notes.append(f"{h}: no closed form for {len(ch.failed)} intermediates {ch.failed[:6]} (left to the solver)")
       for w in range(nworld):
-        P = par[w]
-        for start, size in trees:
-          kind = kinds[start]
-          if kind == "compact":
-            for i in range(start, start + size):
-              lemma(f"{h}/w{w}/lemma:Dinv[{i}]", flat(r["Dinv"], w, i), 1.0 / (P.L[(i, i)] * P.L[(i, i)]), f"{h}.Dinv{i}", f"{name}: qLDiagInv of compact dof {i} is not 1 / M_ii")
-          elif kind == "chol":
-            fa = int(badr[start])
-            for a in range(size):
-              for c in range(a, size):
-                lemma(f"{h}/w{w}/lemma:factor[{start + c},{start + a}]", flat(r["qLD"], w, fa + a * size + c), P.L[(start + c, start + a)], f"{h}.L{start + c}_{start + a}", f"{name}: stored Cholesky factor entry ({start + c},{start + a}) differs from L (replay tests M x = b)")
-          else:
-            for k in reversed(range(start, start + size)):
-              row = sorted([(i, adr) for (kk, i), adr in st.items() if kk == k], reverse=True)
-              for i, adr in row:
-                lemma(f"{h}/w{w}/lemma:factor[{k},{i}]", flat(r["qLD"], w, off + adr), P.D[k] if i == k else P.U[(k, i)], f"{h}.U{k}_{i}", f"{name}: stored L^T D L factor entry ({k},{i}) differs from the parametrisation (replay tests M x = b)")
-              lemma(f"{h}/w{w}/lemma:Dinv[{k}]", flat(r["Dinv"], w, k), P.Ri[k], f"{h}.Dinv{k}", f"{name}: qLDiagInv[{k}] is not 1 / D_k")
         xs = [flat(r["x"], w, i) for i in range(nv)]
         for i, lhs, rhs in residual_rows(mjm, Mvals[w], xs, b(w)):
           ch.prove(ctx, f"{h}/w{w}/Mx=b[{i}]", cmp("==", lhs, rhs), replay=rp(f"{h}.row{i}"), desc=f"{name} ({h}, {kinds[i]} block): row {i} of M x = b fails for the returned x")
       sessM = ctx.session(facts)
       ctx.prove(sessM, f"{h}/M-untouched", And(unchanged(r["dM"]), unchanged(r["M"])), replay=rp(f"{h}.M"), desc=f"{name} ({h}): the factorisation modifies its input matrix")
-    # both entry points agree (the step1 ; step2 lemma of C37): compare after replacing the proved factor entries in both runs
+    # both entry points agree (the step1 ; step2 lemma of C37): after closing, equal closed forms
     a, c = runs["split"], runs["fused"]
     both = la.Chain(a["hr"].assumes + c["hr"].assumes, a["hr"].defs + c["hr"].defs, facts)
     for t, cl in a["chain"].subs + c["chain"].subs:
       both.add(t, cl)
-    # the two entry points store the same sequence of values into every x cell (forward substitution, then backward): replace
-    # the fused run's intermediate value by the split run's name, one small lemma per store
-    wa, wc = a["hr"].writes(a["x"]), c["hr"].writes(c["x"])
-    seq = {}
-    for idx, v in wc:
-      seq.setdefault(idx, []).append(v)
-    cnt = {}
-    if sorted(i for i, _ in wa) == sorted(i for i, _ in wc):
-      for idx, va in wa:
-        k = cnt.get(idx, 0)
-        cnt[idx] = k + 1
-        vc = seq[idx][k]
-        if is_sym(va) and is_sym(vc) and not va.eq(vc):
-          res = both.prove(ctx, f"same/lemma:x-store{list(idx)}#{k}", cmp("==", vc, va), replay=rp(f"same.store{idx[0]}_{idx[1]}_{k}"), desc=f"{name}: store #{k} into x{list(idx)} differs between factor_m;solve_m and factor_solve_i (replay compares the outputs)")
-          if res.status == "unsat":
-            # from now on both are ONE opaque number: later lemmas do not need how it was computed
-            both.add(vc, va)
-            both.opaque.add(va.decl().name())
     for w in range(nworld):
       for i in range(nv):
         both.prove(ctx, f"same/w{w}/x[{i}]", cmp("==", flat(a["x"], w, i), flat(c["x"], w, i)), replay=rp(f"same.x{i}"), desc=f"{name}: factor_m;solve_m and factor_solve_i return different x[{i}]")
@@ -480,7 +459,7 @@ def unit_mulm(name):
         Mc = Marg.ref.cell
       if variant == "dense":
         Marg = host.sym_array("Mdense", (nworld, nv, nv), wp.float32)
-      with la.HostRun(mode="exec") as hr:
+      with la.HostRun(mode="exec", naming=False) as hr:
         support.mul_m(m, d2, res, vec, skip=skip, M=Marg)
       for e in hr.events:
         if e.kind == "launch":
